@@ -21,6 +21,8 @@ Decided (structural necessary conditions; the cursor arithmetic over histories i
     n = min(L, p-c) (recv: byte c iff c < p; fill_buf: [c, p)), in order, and advances the cursor by exactly the number
     of bytes handed out (consume: by the amount, never past p).
  S4 notification protocol on both queues is C05.N3.
+ S9 wrap-safe counters and completion test (= C03.E5 / E9).  S10 chunk length and id come from the used-ring slot of the
+     trusted index; a refused poll consumes nothing (= C03.E1 / E2).
 Not decided: equality of delivered and produced byte streams (cursor arithmetic across interleavings of recv / read /
 fill_buf / consume) - value reasoning over histories.
 """
